@@ -286,10 +286,21 @@ func exhaustiveC13(thorough bool, emit func(C13Case) bool) {
 			return
 		}
 	}
-	for i, n := range sizeLadder {
+	for i, n := range sizeLadderLinear {
 		s := realDNA(n, i, false, true)
-		if !emit(C13Case{Kind: "dna", Data: s, Spare: i % 4}) || !emit(C13Case{Kind: "packed", Data: ref.Pack2Bit(s)}) {
+		if !emit(C13Case{Kind: "dna", Data: s, Spare: i % 4}) || !emit(C13Case{Kind: "packed", Data: ref.Pack2Bit(s)}) || !emit(C13Case{Kind: "packed", Data: s}) {
 			return
+		}
+		// the same with one foreign byte (the panic must come whatever block the byte is in), each
+		// followed by a valid call of the same size
+		if n >= 4095 {
+			for j, pos := range foreignPositions(n) {
+				bad := realDNA(n, i, false, true)
+				bad[pos] = "x\x00UN\xff@"[j%6]
+				if !emit(C13Case{Kind: "dna", Data: bad}) || !emit(C13Case{Kind: "dna", Data: realDNA(n, i+j+1, false, false)}) {
+					return
+				}
+			}
 		}
 	}
 	// a megabase sequence (beyond any threshold for working in pieces or in parallel), valid and
